@@ -176,7 +176,8 @@ func vC09Corpus() []vPlan {
 func vC09Random(r *vRng, idx int) vPlan {
 	p := vPlan{Name: fmt.Sprintf("random-%d", idx), NClients: 1 + r.Intn(4), Kinds: map[string]vHKind{}}
 	p.Real = r.Intn(5) == 0
-	bufs := []int{9000, 9000, 4096, 512, 100, 16}
+	bufs := []int{9000, 9000, 4096, 1024, 512, 100}
+	small := map[int]bool{}
 	stall := false
 	readers := map[int]bool{}
 	for c := 0; c < p.NClients; c++ {
@@ -201,6 +202,7 @@ func vC09Random(r *vRng, idx int) vPlan {
 			k = vHKind{Mode: vHEcho, Buf: 9000}
 		}
 		p.Kinds[fmt.Sprintf("%d/*", c)] = k
+		small[c] = k.Buf > 0 && k.Buf < 512
 	}
 	total := 2 + r.Intn(40)
 	if r.Intn(4) == 0 {
@@ -213,6 +215,9 @@ func vC09Random(r *vRng, idx int) vPlan {
 			sz = vC09Hdr + r.Intn(9000-vC09Hdr+1)
 		}
 		if p.Real && sz > 2000 && r.Intn(3) != 0 {
+			sz = vC09Hdr + r.Intn(1400)
+		}
+		if small[c] && sz > 1500 {
 			sz = vC09Hdr + r.Intn(1400)
 		}
 		s := vSend{Client: c, Size: sz}
@@ -557,6 +562,7 @@ type vC09Result struct {
 }
 
 func vC09Exec(plan *vPlan) vC09Result {
+	t0 := time.Now()
 	l := newVC09Log()
 	pc := &vC09PC{log: l, done: make(chan struct{}), clients: map[string]int{}}
 	var addrs []net.Addr
@@ -604,7 +610,7 @@ func vC09Exec(plan *vPlan) vC09Result {
 		l.mu.Unlock()
 	}
 	waitEnded := func(client int) int {
-		end := time.Now().Add(3 * time.Second)
+		end := time.Now().Add(400 * time.Millisecond)
 		for time.Now().Before(end) {
 			l.mu.Lock()
 			as := l.byClient[client]
@@ -758,7 +764,7 @@ func vC09Exec(plan *vPlan) vC09Result {
 		nas = 6
 	}
 	res.Cls = fmt.Sprintf("%s clients=%d assocs=%d", mode, plan.NClients, nas)
-	res.Stats = []int{l.narr, len(l.assocs), len(l.coq)}
+	res.Stats = []int{l.narr, len(l.assocs), len(l.coq), int(time.Since(t0) / time.Millisecond)}
 	return res
 }
 
